@@ -11,6 +11,7 @@ wrong variants. Every (x0, dx, an, fd) tuple is received through `test_fn` and c
 import contextlib
 import copy
 import io
+import sys
 
 import numpy as np
 from hypothesis import strategies as st
@@ -20,7 +21,7 @@ from pbt.props import _c19_helpers as H
 PROPERTY_ID = "C19"
 RULE = ("case = a module graph built from maps with exactly known derivatives (lin, quad, element-wise square, plain "
         "python scalar polynomial, conj / |x|^2 / Re-Im (non-holomorphic), sparse-matrix output), either one module "
-        "called directly or a 3-module Network (pre -> m1 -> m2) with explicit fromsig/tosig subsets; input kinds "
+        "called directly or a 3-module Network (pre -> m1 -> m2, m1 optionally reading a single or nested basic slice of pre's output) with explicit fromsig/tosig subsets; input kinds "
         "python float/complex, numpy scalars, 0-d/1-d/2-d arrays, real or complex, with exact zeros; one module may be "
         "a wrong variant (entry scaled, sign, missing term, transposed block, conjugated gradient); options dx, "
         "relative_dx, random / ones / use_df seeds, keep_zero_structure, verbose. Non-trivial = (>= 2 perturbed "
@@ -112,13 +113,23 @@ def strategy(tier):
         m1["outs"] = [[draw(st.integers(1, 3))], draw(out_shape)]
         m2 = draw(mod(["lin", "quad", "sparse", "esq", "conj", "abs2", "reim"], 2))
         m2["with_z"] = draw(st.booleans())
+        # m1 may read a (nested) basic slice of x instead of x itself: the sub-network selection for fromsig/tosig has
+        # to follow slices down to the signal that holds the data
+        xslice = draw(st.sampled_from([None, None, "single", "nested", "nested"]))
+        if xslice:
+            pre["outs"] = [[draw(st.integers(3, 6))]]
+        if xslice and (inputs[0]["cplx"] or inputs[1]["cplx"] or m1["cplx_coef"] or m2["cplx_coef"]):
+            pre["cplx_coef"] = True     # complex adjoints can only be added into the slice of a complex signal
+        xs = {"a": draw(st.integers(0, 2)), "len": draw(st.integers(2, 4)), "step": draw(st.sampled_from([1, 1, 2])),
+              "a2": draw(st.integers(0, 1)), "len2": draw(st.integers(1, 2)), "step2": draw(st.sampled_from([1, 2, -1]))}
         only_one_wrong = draw(st.integers(0, 2))
         for k, m in enumerate((pre, m1, m2)):
             if k != only_one_wrong:
                 m["variant"] = "ok"
         c = {"template": "chain", "inputs": inputs, "mods": [pre, m1, m2],
              "fromsig": draw(st.sampled_from(["src", "src", "cut", "x", "z", "s0"])),
-             "tosig": draw(st.lists(st.integers(0, 5), min_size=1, max_size=3, unique=True))}
+             "tosig": draw(st.lists(st.integers(0, 5), min_size=1, max_size=3, unique=True)),
+             "xslice": xslice, "xs": xs}
         c.update(draw(options()))
         return c
     return st.one_of(single(), chain())
@@ -130,6 +141,7 @@ def _classes():
     if _CLS:
         return _CLS
     import pymoto as pym
+    from pymoto.core_objects import SignalSlice
 
     class TapSignal(pym.Signal):
         """Signal that remembers which values were assigned to `sensitivity` directly (i.e. the seeds)."""
@@ -144,8 +156,11 @@ def _classes():
 
         @sensitivity.setter
         def sensitivity(self, v):
-            if v is not None and self._depth == 0 and self.recording:
-                self.direct.append(v)
+            if v is not None and self._depth == 0 and self.recording \
+                    and not isinstance(sys._getframe(1).f_locals.get("self"), SignalSlice):
+                # (a SignalSlice allocating its base's buffer is not a seed); recorded by value: the array may later be
+                # cleared in place when a slice of this signal is reset
+                self.direct.append(copy.deepcopy(v))
             self._sens = v
 
         def add_sensitivity(self, ds):
@@ -199,9 +214,15 @@ def build(case):
         sp0 = _spec(pre, [base["s0"]], cx)
         ref.add(sp0, ["s0"], ["x"])
         tmp = ref.evaluate(base)
-        sp1 = _spec(m1, [tmp["x"], base["z"]], cx, outs=m1["outs"] if m1["type"] == "lin" else [()])
+        xin = "x"
+        if case.get("xslice"):
+            sel = SelSpec(len(tmp["x"]), case["xslice"], case["xs"])
+            ref.add(sel, ["x"], ["xs"])
+            tmp = ref.evaluate(base)
+            xin = "xs"
+        sp1 = _spec(m1, [tmp[xin], base["z"]], cx, outs=m1["outs"] if m1["type"] == "lin" else [()])
         o1 = ["u", "v"] if sp1.nout == 2 else ["u"]
-        ref.add(sp1, ["x", "z"], o1)
+        ref.add(sp1, [xin, "z"], o1)
         tmp = ref.evaluate(base)
         multi = m2["type"] in ("lin", "quad", "sparse") and m2.get("with_z")
         in2 = ["u", "z"] if multi else ["u"]
@@ -216,6 +237,39 @@ def build(case):
         explicit = (True, True)
     return {"ref": ref, "base": base, "fromsig": fs, "tosig": ts, "kinds": kinds, "sources": sources, "cx": cx,
             "explicit": explicit}
+
+
+class SelSpec:
+    """Reference-side stand-in for a (nested) basic slice of a 1-D signal: y = x[idx]. On the pyMOTO side it is not a
+    module but the SignalSlice object x[s1] or x[s1][s2] handed to the consuming module."""
+    typ, variant, nout = "sel", "ok", 1
+
+    def __init__(self, n, mode, o):
+        self.s1 = slice(o["a"], o["a"] + o["len"] * o["step"], o["step"])
+        self.s2 = None
+        idx = np.arange(n)[self.s1]
+        if mode == "nested":
+            a2 = min(o["a2"], len(idx) - 1)
+            if o["step2"] < 0:
+                self.s2 = slice(None, None, -1)
+            else:
+                self.s2 = slice(a2, a2 + o["len2"] * o["step2"], o["step2"])
+            idx = idx[self.s2]
+        assert len(idx) >= 1
+        self.idx = idx
+        self.N = len(idx)
+
+    def apply(self, signal):
+        return signal[self.s1] if self.s2 is None else signal[self.s1][self.s2]
+
+    def forward(self, xs):
+        return [np.asarray(xs[0])[self.idx]]
+
+    def mag(self, axs):
+        return [np.asarray(axs[0])[self.idx]]
+
+    def jvp(self, xs, ts):
+        return [np.asarray(ts[0])[self.idx]]
 
 
 def _bits(v):
@@ -276,6 +330,10 @@ def check_case(case):
         labels.append("preallocated_sensitivity")
     mods = []
     for spec, ins, outs in ref.mods:
+        if spec.typ == "sel":
+            sig[outs[0]] = spec.apply(sig[ins[0]])
+            labels.append("sliced_module_input:" + ("nested" if spec.s2 is not None else "single"))
+            continue
         for o in outs:
             sig[o] = mk(o)
         mods.append(HMod([sig[i] for i in ins], [sig[o] for o in outs], spec))
@@ -304,6 +362,7 @@ def check_case(case):
             use_df.append(w)
 
     # ---- the call under test
+    use_df0 = copy.deepcopy(use_df)
     got = []
     fa = [sig[n] for n in fs]
     ta = [sig[n] for n in ts]
@@ -360,7 +419,7 @@ def check_case(case):
     # ---- seeds that were used
     ws = {}
     if plain:
-        ws = dict(zip(ts, use_df))
+        ws = dict(zip(ts, use_df0))
     else:
         for k, n in enumerate(ts):
             d = sig[n].direct
@@ -368,8 +427,8 @@ def check_case(case):
                 bad("seed:not_set", f"output {n} never received a seed")
                 return sorted(set(labels)), V
             ws[n] = d[-1]
-            if use_df is not None and not (d[-1] is use_df[k] or np.array_equal(np.asarray(d[-1]), np.asarray(use_df[k]))):
-                bad("seed:use_df_not_used", f"output {n}: seed {d[-1]!r} but use_df[{k}] = {use_df[k]!r}")
+            if use_df is not None and not np.array_equal(np.asarray(d[-1]), np.asarray(use_df0[k])):
+                bad("seed:use_df_not_used", f"output {n}: seed {d[-1]!r} but use_df[{k}] = {use_df0[k]!r}")
             want_shape = np.shape(H.dense(full[n]))
             if np.shape(d[-1]) != want_shape:
                 bad("seed:shape", f"output {n}: seed shape {np.shape(d[-1])}, output shape {want_shape}")
@@ -383,8 +442,11 @@ def check_case(case):
         elif _bits(st_now) != bits_before[n]:
             bad(f"restore:value_changed:{'array' if isinstance(x_before[n], np.ndarray) else 'scalar'}",
                 f"input {n}: before {x_before[n]!r}, after {st_now!r}")
+    # a kept allocation must be all zero; so must the buffer of a signal whose slices are module inputs (resetting a
+    # SignalSlice zeroes its part of the base buffer, it cannot drop it)
+    sliced = {"x", "xs"} if case.get("xslice") else set()
     left = [n for n, s in sig.items() if s.sensitivity is not None
-            and not (n in prealloc and not np.any(s.sensitivity))]     # a kept allocation must be all zero
+            and not ((n in prealloc or n in sliced) and not np.any(s.sensitivity))]
     if left:
         bad("sensitivity_left_set", f"signals with a sensitivity after the call: {left}")
 
